@@ -351,9 +351,21 @@ def _run_of(e, sub, seg):
                   z3.Implies(R.len == 0, is_cls(e, sub, 'EmptyAlignmentSegment')))
 
 
+def _slice_args_log(which):
+    def h(L):
+        L.set('gs%da' % which, L.callargs[0].t)
+        L.set('gs%db' % which, L.callargs[1].t)
+    return h
+
+
 def _paircreate_ensures(C, res):
     e = C._e
-    return [('pair_holds_the_two_segments_in_order', z3.And(res.leftSegment.ref == C.segment1.ref, res.rightSegment.ref == C.segment2.ref)),
+    extra = []
+    if C.proving and C.has('F'):
+        F_ = C.F
+        extra = [('both_zones_are_cut_from_the_conflict_start_to_the_conflict_end_in_that_order', z3.And(
+            F_.gs0a == F_.conflictStart.ref, F_.gs1a == F_.conflictStart.ref, F_.gs0b == F_.conflictEnd.ref, F_.gs1b == F_.conflictEnd.ref))]
+    return extra + [('pair_holds_the_two_segments_in_order', z3.And(res.leftSegment.ref == C.segment1.ref, res.rightSegment.ref == C.segment2.ref)),
             ('left_conflict_zone_is_a_contiguous_run_of_the_left_segment', _run_of(e, res.leftConflictingSubsegment, C.segment1)),
             ('right_conflict_zone_is_a_contiguous_run_of_the_right_segment', _run_of(e, res.rightConflictingSubsegment, C.segment2))]
 
@@ -361,6 +373,8 @@ def _paircreate_ensures(C, res):
 pair_create = FunctionSpec(
     file=F, qualname='_SegmentPairWithConflict.create', params=dict(segment1=SEG, segment2=SEG), returns=PAIRC, ensures=_paircreate_ensures,
     may_raise={'IndexError'}, use_variant={'AlignmentSegment.slice': 'partial'}, serves=('C15', 'C01', 'C08'),
+    ghost={n: (lambda C: z3.Const('g_nopos', Ref)) for n in ('gs0a', 'gs0b', 'gs1a', 'gs1b')},
+    ghost_at={'call:slice#0': _slice_args_log(0), 'call:slice#1': _slice_args_log(1)},
     note="(partial correctness) the pair keeps the two segments in the order given; both conflict zones are contiguous runs of their own segment, cut "
          "between the right segment's first pair and the left segment's last pair")
 
